@@ -293,6 +293,7 @@ class GeckoAsyncSpaMan(ABC, AsyncTasks):
 
         This API will connect to the specified spa using the supplied descriptor"""
         assert self._facade is None
+        spa = None
 
         try:
             self._spa_name = spa_descriptor.name
@@ -310,6 +311,10 @@ class GeckoAsyncSpaMan(ABC, AsyncTasks):
                 self._facade = GeckoAsyncFacade(self._spa, self)
 
         finally:
+            if spa is not None and self._spa is not spa and spa.isopen:
+                # The reset came before the abandoned attempt had opened its
+                # endpoint and started its tasks, so it could not stop them
+                await spa.disconnect()
             await self._handle_event(
                 GeckoSpaEvent.CONNECTION_FINISHED, facade=self._facade
             )
